@@ -1637,17 +1637,9 @@ class Stage:
         # Handle Bspline signals
         subgrid = list(np.linspace(0, 1, M*refine+1))[:-1]
 
-        v_sampled_store = []
-        for e in stage._method.signals.values():
-            v_sampled = ca.horzsplit(e.sample(subgrid=subgrid,include_edges=False), refine)
-            v_sampled_store.append(v_sampled)
-        
-        signals_sampled = []
-        for i in range(M*N):
-            if stage._method.signals:
-                signals_sampled.append(ca.vertcat(*[e[i] for e in v_sampled_store]))
-            else:
-                signals_sampled.append(ca.DM(0,refine))
+        v_sampled_store = {}
+        for s, e in stage._method.signals.items():
+            v_sampled_store[s] = ca.horzsplit(e.sample(subgrid=subgrid,include_edges=False), refine)
 
         time = stage._method.control_grid
         total_time = []
@@ -1674,9 +1666,11 @@ class Stage:
                 else:
                     z = nan
 
-                pv = stage._method.get_p_sys(stage,k,include_signals=False)
                 if stage._method.signals:
-                    pv = ca.vertcat(ca.repmat(pv,1,refine),signals_sampled[count_blocks])
+                    # the sampled signals go to their own positions in the parameter vector of the system function
+                    pv = stage._method.get_p_sys(stage,k,signal_values={s: v[count_blocks] for s,v in v_sampled_store.items()},n=refine)
+                else:
+                    pv = stage._method.get_p_sys(stage,k,include_signals=False)
                 sub_expr.append(stage._method.eval_at_integrator(stage, expr_f(local_t.T, nan if coeff is None else mtimes(coeff,tpower), nan if coeff_q is None else mtimes(coeff_q,tpower), z, stage._method.U[k], pv, stage._method.t0, stage._method.T), k, l))
                 t0+=dt
                 count_blocks+=1
